@@ -65,6 +65,87 @@ def shadow(x):
     return Fraction(x)
 
 
+DIV_PARTS = {}  # id of a quotient term -> (term, numerator, denominator)
+
+
+def quotient_facts(x):
+    """For a quotient q = n/d: (cond, gt1, bad) where, under `cond` (n >= 0, d > 0, both finite),
+    q > 1 <=> n > d (div_lemma, discharged by the solvers at run time), q >= 0 and q is not NaN."""
+    t = DIV_PARTS.get(x.e.get_id())
+    if t is None or not t[0].eq(x.e):
+        return None
+    _, n, d = t
+    zero = z3.FPVal(0.0, F64)
+    cond = z3.And(z3.fpGEQ(n, zero), z3.fpGT(d, zero), z3.Not(z3.fpIsInf(n)), z3.Not(z3.fpIsInf(d)))
+    return cond, z3.fpGT(n, d)
+
+
+def _canon(e, cache):
+    """rebuild a term with the operands of IEEE add/mul (commutative) in one canonical order"""
+    k = e.get_id()
+    if k in cache:
+        return cache[k][1]
+    ch = [_canon(c, cache) for c in e.children()]
+    if ch:
+        kind = e.decl().kind()
+        if kind in (z3.Z3_OP_FPA_ADD, z3.Z3_OP_FPA_MUL) and len(ch) == 3 and ch[1].get_id() > ch[2].get_id():
+            ch = [ch[0], ch[2], ch[1]]
+        r = e.decl()(*ch)
+    else:
+        r = e
+    cache[k] = (e, r)  # the key term is kept alive: z3 re-uses the ids of collected terms
+    return r
+
+
+def tie_normalize(constraints, variables):
+    """Path conditions of min/max code contain ties: not(u < v) and not(v < u) for two inputs.  With NaN and -0
+    excluded (the caller's base constraints) a tie is bit-identity, so v is replaced by u everywhere and
+    commutative operands are re-ordered: the two sides of a symmetric computation become the same term and
+    contradictions become syntactic.  Returns (constraints', ties)."""
+    names = {v.e.get_id(): v.e for v in variables}
+    lt = set()
+    for c in constraints:
+        if z3.is_not(c):
+            a = c.arg(0)
+            if a.decl().kind() == z3.Z3_OP_FPA_LT and a.arg(0).get_id() in names and a.arg(1).get_id() in names:
+                lt.add((a.arg(0).get_id(), a.arg(1).get_id()))
+            if a.decl().kind() == z3.Z3_OP_FPA_GT and a.arg(0).get_id() in names and a.arg(1).get_id() in names:
+                lt.add((a.arg(1).get_id(), a.arg(0).get_id()))
+    ties = [(u, v) for (u, v) in lt if (v, u) in lt and u < v]
+    if not ties:
+        return list(constraints), []
+    # union-find so chains of ties collapse onto one representative
+    rep = {}
+
+    def find(x):
+        while rep.get(x, x) != x:
+            x = rep[x]
+        return x
+
+    for u, v in ties:
+        ru, rv = find(u), find(v)
+        if ru != rv:
+            rep[max(ru, rv)] = min(ru, rv)
+    sub = [(names[x], names[find(x)]) for x in names if find(x) != x]
+    cache = {}
+    out = []
+    for c in constraints:
+        c2 = z3.simplify(_canon(z3.substitute(c, *sub), cache))
+        out.append(c2)
+    return out, [(str(a), str(b)) for a, b in sub]
+
+
+def div_lemma(timeout_s=300):
+    """for all finite doubles n >= 0, d > 0:  fl(n/d) > 1  <=>  n > d   (and fl(n/d) >= 0, not NaN).
+    Returns the solve() record; status must be `unsat` for the rewriting to be used."""
+    n, d = z3.FP("lem_n", F64), z3.FP("lem_d", F64)
+    zero, one = z3.FPVal(0.0, F64), z3.FPVal(1.0, F64)
+    q = z3.fpDiv(RNE, n, d)
+    pre = [z3.fpGEQ(n, zero), z3.fpGT(d, zero), z3.Not(z3.fpIsInf(n)), z3.Not(z3.fpIsInf(d))]
+    neg = z3.Or(z3.Xor(z3.fpGT(q, one), z3.fpGT(n, d)), z3.fpLT(q, zero), z3.fpIsNaN(q))
+    return solve(pre + [neg], timeout_s, {})
+
+
 def _scalar(o):
     return isinstance(o, (ZF, int, float)) and not isinstance(o, bool)
 
@@ -85,7 +166,13 @@ class ZF:
             return NotImplemented
         a, b = (lift(o), self.e) if swap else (self.e, lift(o))
         sa, sb = (shadow(o), self.sh) if swap else (self.sh, shadow(o))
-        return ZF(f(RNE, a, b), g(sa, sb) if sa is not None and sb is not None else None)
+        sh = g(sa, sb) if sa is not None and sb is not None else None
+        if f in (z3.fpAdd, z3.fpMul) and a.get_id() > b.get_id():
+            a, b = b, a  # IEEE addition and multiplication are commutative: one canonical operand order
+        r = ZF(f(RNE, a, b), sh)
+        if f is z3.fpDiv:
+            DIV_PARTS[r.e.get_id()] = (r.e, a, b)
+        return r
 
     def __add__(self, o):
         return self._bin(o, z3.fpAdd, lambda x, y: x + y)
@@ -183,7 +270,9 @@ def _cvc5_start(smt2, names, timeout_s):
     if not os.path.exists(CVC5) or os.environ.get("VERIF_NO_CVC5"):
         return None
     body = smt2.replace("(check-sat)", "")
-    text = "(set-option :produce-models true)\n(set-logic ALL)\n" + body + "\n(check-sat)\n(get-value (%s))\n" % " ".join(names)
+    text = "(set-option :produce-models true)\n(set-logic ALL)\n" + body + "\n(check-sat)\n"
+    if names:
+        text += "(get-value (%s))\n" % " ".join(names)
     keep = os.environ.get("VERIF_KX_KEEP")
     if keep:
         with open(os.path.join(keep, "q%d_%d.smt2" % (os.getpid(), int(time.time() * 1000) % 100000000)), "w") as f:
@@ -263,7 +352,8 @@ def solve(constraints, timeout_s, wanted, portfolio=True):
     smt2 = s.to_smt2()
     t0 = time.time()
     names = [v.e.decl().name() for v in wanted.values() if z3.is_const(v.e)]
-    started = _cvc5_start(smt2, names, timeout_s) if portfolio and len(names) == len(wanted) else None
+    declared = [n for n in names if "(declare-fun %s " % n in smt2]  # variables eliminated by normalisation: any value
+    started = _cvc5_start(smt2, declared, timeout_s) if portfolio and len(names) == len(wanted) else None
     r = s.check()
     out = {"status": str(r), "backend": "z3", "smt2": smt2[:20000]}
     if str(r) == "sat":
@@ -278,9 +368,9 @@ def solve(constraints, timeout_s, wanted, portfolio=True):
             kill_cvc5(started)
         else:
             st, vals = _cvc5_finish(started, timeout_s - (time.time() - t0) + 2)
-            if st == "sat" and set(vals) >= set(names):
+            if st == "sat" and set(vals) >= set(declared):
                 by_decl = {v.e.decl().name(): k for k, v in wanted.items()}
-                out.update(status="sat", backend="cvc5", model={by_decl[n]: vals[n] for n in names})
+                out.update(status="sat", backend="cvc5", model={by_decl[n]: vals.get(n, 0.0) for n in names})
             elif st == "unsat":
                 out.update(status="unsat", backend="cvc5")
     out["solve_s"] = round(time.time() - t0, 2)
@@ -576,5 +666,16 @@ def kx_max(*args):
     m = args[0]
     for x in args[1:]:
         if x > m:
+            m = x
+    return m
+
+
+def kx_min(*args):
+    """builtin min over values that may be ZI / ZF (first minimal element, like the builtin)"""
+    if len(args) == 1:
+        args = tuple(args[0])
+    m = args[0]
+    for x in args[1:]:
+        if x < m:
             m = x
     return m
